@@ -39,8 +39,9 @@
   Ghost fields (never read by a non-ghost update): `L` (the member list of DESIGN App. G.1: pushed,
   neither popped nor removed, in swap order), `st` (per node: member / popped / removed), `lk`, `sp`,
   `own`, `ts`, `pv`, `popped`, `removed` (append-only logs of the nodes that left by pop / by remove),
-  `out`, `ih`, `rd`. `hnd`, `nid`, `freed`, `fa` are the model's view of handle ownership and of the
-  allocator (they guard the API-typing of handles and the `aba` choice only).
+  `out`, `ih`, `rd`, and the owners of the two references of a node: `lr` (the list), `hr` (the handle), `hin` (the handle is
+  inside a call of actor `hby`), `tr` (the queue still owns its stub). `hnd`, `nid`, `freed`, `fa` are the model's view of handle
+  ownership and of the allocator (they guard the API-typing of handles and the `aba` choice only).
 -/
 namespace MayVerif.TimerList
 
@@ -106,11 +107,19 @@ structure Sh where
   out : Nid → Option Nat    -- the value that left the list with this node
   ih : Nid → Bool           -- `is_head` reported by the push of this node
   rd : Nid → Bool           -- the push of this node has read `tail` (its report is made)
+  lr : Nid → Bool           -- the list holds its reference on the node
+  hr : Nid → Bool           -- the handle side holds its reference on the node
+  hin : Nid → Bool          -- the handle is inside a call (moved into remove / drop, borrowed by is_link)
+  hby : Nid → Tid           -- … of this actor
+  tr : Bool                 -- the queue has not yet given up its stub (false after the last step of `Queue::drop`)
 
 /-- `if refs.fetch_sub(1) == 1 { free }` (an underflow of the count part cannot be expressed: blocked, proved unreachable) -/
-def decRef (sh : Sh) (m : Nid) : Option Sh :=
+def decRef (sh : Sh) (m : Nid) (list : Bool) : Option Sh :=
   if sh.rc m = 0 then none
   else some { sh with rc := upd sh.rc m (sh.rc m - 1),
+                      lr := if list = true then upd sh.lr m false else sh.lr,
+                      hr := if list = true then sh.hr else upd sh.hr m false,
+                      hin := if list = true then sh.hin else upd sh.hin m false,
                       freed := if sh.rc m = 1 ∧ sh.lnk m = false then upd sh.freed m true else sh.freed,
                       fa := if sh.rc m = 1 ∧ sh.lnk m = false then upd sh.fa m sh.nid else sh.fa }
 
@@ -124,16 +133,16 @@ def tstep (sh : Sh) (me : Tid) : Pc → Env → Option (Sh × Pc)
   | .idle, .peek => if me = 0 ∧ sh.dead = false then some (sh, .kHead) else none
   | .idle, .isEmpty => if me = 0 ∧ sh.dead = false then some (sh, .eHead) else none
   | .idle, .qdrop => if me = 0 ∧ sh.dead = false then some ({ sh with dead := true }, .oHead true) else none
-  | .idle, .remove m => if me = 0 ∧ sh.hnd m = true then some ({ sh with hnd := upd sh.hnd m false }, .rRefs m) else none
-  | .idle, .isLink m => if sh.hnd m = true then some ({ sh with hnd := upd sh.hnd m false }, .lRefs m) else none
-  | .idle, .drop m => if sh.hnd m = true then some ({ sh with hnd := upd sh.hnd m false }, .dDec m) else none
+  | .idle, .remove m => if me = 0 ∧ sh.hnd m = true then some ({ sh with hnd := upd sh.hnd m false, hin := upd sh.hin m true, hby := upd sh.hby m me }, .rRefs m) else none
+  | .idle, .isLink m => if sh.hnd m = true then some ({ sh with hnd := upd sh.hnd m false, hin := upd sh.hin m true, hby := upd sh.hby m me }, .lRefs m) else none
+  | .idle, .drop m => if sh.hnd m = true then some ({ sh with hnd := upd sh.hnd m false, hin := upd sh.hin m true, hby := upd sh.hby m me }, .dDec m) else none
   | .idle, _ => none
   | .ret _, _ => some (sh, .idle)
   -- push
   | .pSwap v, _ =>
       some ({ sh with head := sh.nid, nid := sh.nid + 1,
                       prev := upd sh.prev sh.nid 0, next := upd sh.next sh.nid 0, val := upd sh.val sh.nid (some v),
-                      lnk := upd sh.lnk sh.nid true, rc := upd sh.rc sh.nid 2,
+                      lnk := upd sh.lnk sh.nid true, rc := upd sh.rc sh.nid 2, lr := upd sh.lr sh.nid true, hr := upd sh.hr sh.nid true,
                       L := sh.L ++ [sh.nid], st := upd sh.st sh.nid .member, sp := upd sh.sp sh.nid sh.head,
                       own := upd sh.own sh.nid me, ts := upd sh.ts sh.nid sh.tail, pv := upd sh.pv sh.nid v }, .pPrev sh.nid sh.head)
   | .pPrev n p, _ => some ({ sh with prev := upd sh.prev n p }, .pLink n p)
@@ -150,13 +159,13 @@ def tstep (sh : Sh) (me : Tid) : Pc → Env → Option (Sh × Pc)
       if sh.head = sh.tail then
         (if k = false then some (sh, .ret (-1))
          else if sh.fix = true then some (sh, .qAnd)
-         else some ({ sh with freed := upd sh.freed sh.tail true, fa := upd sh.fa sh.tail sh.nid }, .ret 0))   -- pinned: `Box::from_raw(tail)`
+         else some ({ sh with freed := upd sh.freed sh.tail true, fa := upd sh.fa sh.tail sh.nid, tr := false }, .ret 0))   -- pinned: `Box::from_raw(tail)`
       else some (sh, .oAnd k)
   | .oAnd k, _ => some ({ sh with lnk := upd sh.lnk sh.tail false }, .oNext k)
   | .oNext k, _ => if sh.next sh.tail = 0 then some (sh, .oNext k) else some (sh, .cPrev (sh.next sh.tail) k)
   -- the end of `Queue::drop`: retire the stub
   | .qAnd, _ => some ({ sh with lnk := upd sh.lnk sh.tail false }, .qDec)
-  | .qDec, _ => (decRef sh sh.tail).map fun sh' => (sh', .ret 0)
+  | .qDec, _ => (decRef sh sh.tail true).map fun sh' => ({ sh' with tr := false }, .ret 0)
   -- pop_if
   | .iHead acc, _ => if sh.head = sh.tail then some (sh, .ret (-1)) else some (sh, .iNext acc)
   | .iNext acc, _ =>
@@ -173,7 +182,7 @@ def tstep (sh : Sh) (me : Tid) : Pc → Env → Option (Sh × Pc)
       match sh.val x with
       | none => none                    -- `.unwrap()` of an empty value would panic: proved unreachable
       | some v => some ({ sh with val := upd sh.val x none, out := upd sh.out x (some v) }, .cDec o v k)
-  | .cDec o v k, _ => (decRef sh o).map fun sh' => (sh', if k = true then .oHead true else .ret v)
+  | .cDec o v k, _ => (decRef sh o true).map fun sh' => (sh', if k = true then .oHead true else .ret v)
   -- peek / is_empty
   | .kHead, _ => if sh.head = sh.tail then some (sh, .ret (-1)) else some (sh, .kNext)
   | .kNext, _ =>
@@ -193,11 +202,11 @@ def tstep (sh : Sh) (me : Tid) : Pc → Env → Option (Sh × Pc)
   | .rTake m, _ =>
       some ({ sh with val := upd sh.val m none, out := upd sh.out m (sh.val m) },
             .rDec m (match sh.val m with | some v => (v : Int) | none => -1))
-  | .rDec m r, _ => (decRef sh m).map fun sh' => (sh', .rDrop m r)
-  | .rDrop m r, _ => (decRef sh m).map fun sh' => (sh', .ret r)
+  | .rDec m r, _ => (decRef sh m true).map fun sh' => (sh', .rDrop m r)
+  | .rDrop m r, _ => (decRef sh m false).map fun sh' => (sh', .ret r)
   -- handle holder
-  | .lRefs m, _ => some ({ sh with hnd := upd sh.hnd m true }, .ret (b2i (sh.lnk m)))
-  | .dDec m, _ => (decRef sh m).map fun sh' => (sh', .ret 0)
+  | .lRefs m, _ => some ({ sh with hnd := upd sh.hnd m true, hin := upd sh.hin m false }, .ret (b2i (sh.lnk m)))
+  | .dDec m, _ => (decRef sh m false).map fun sh' => (sh', .ret 0)
 
 structure St where
   n : Nat
@@ -224,7 +233,8 @@ def init (n : Nat) (fix : Bool := true) : St :=
         rc := fun m => if m = 1 then 1 else 0, freed := fun _ => false, nid := 2, hnd := fun _ => false,
         fa := fun _ => 0, L := [], st := fun _ => .none, lk := fun _ => false, sp := fun _ => 0, own := fun _ => 0,
         ts := fun _ => 0, pv := fun _ => 0,
-        popped := [], removed := [], out := fun _ => none, ih := fun _ => false, rd := fun _ => false },
+        popped := [], removed := [], out := fun _ => none, ih := fun _ => false, rd := fun _ => false,
+        lr := fun m => decide (m = 1), hr := fun _ => false, hin := fun _ => false, hby := fun _ => 0, tr := true },
    fun _ => .idle⟩
 
 /-- every finite schedule: disabled choices are skipped, so `∀ sched` is every interleaving -/
